@@ -444,6 +444,26 @@ func (m *Machine) doDispose(force bool) {
 		return
 	}
 
+	// the dispose handlers run last, once the locks taken below have been
+	// released: they may use the machine (getters, OnDispose, When*)
+	defer func() {
+		verifhook.Point("dispose.before-handlers")
+		// TODO timeouts?
+		m.handlersMx.Lock()
+		fns := slices.Clone(m.disposeHandlers)
+		m.handlersMx.Unlock()
+		for _, fn := range fns {
+			fn(m.id, m.ctx)
+		}
+		// TODO disposeHandlers refs to other machines
+		// m.disposeHandlers = nil
+
+		// the end
+		m.cancel()
+		// fmt.Println("DISPOSED " + m.Id())
+		closeSafe(m.whenDisposed)
+	}()
+
 	m.tracersMx.RLock()
 	for i := range m.tracers {
 		m.tracers[i].MachineDispose(m.Id())
@@ -513,19 +533,6 @@ func (m *Machine) doDispose(force bool) {
 		m.queueProcessing.Store(false)
 	}
 
-	verifhook.Point("dispose.before-handlers")
-	// run doDispose handlers
-	// TODO timeouts?
-	for _, fn := range m.disposeHandlers {
-		fn(m.id, m.ctx)
-	}
-	// TODO disposeHandlers refs to other machines
-	// m.disposeHandlers = nil
-
-	// the end
-	m.cancel()
-	// fmt.Println("DISPOSED " + m.Id())
-	closeSafe(m.whenDisposed)
 }
 
 func (m *Machine) getHandlers(locked bool) []*handler {
